@@ -108,6 +108,44 @@ def main():
     ev["out"]["v"] += 1
     demos.append(("C18 depth off by one", "Trace_Metrics", t, {"MetricOK"}))
 
+    # --- graph representation object (X02): drop a call / forget a remembered Clifford
+    from drivers import x02, c19, c16
+    calls = [{"a": "add_edge", "u": 1, "v": 2, "w": []}, {"a": "update_lc", "u": 1, "v": 0, "w": ["Hadamard"]},
+             {"a": "add_node", "u": 3, "v": 0, "w": ["Phase", "Hadamard"]}, {"a": "local_comp", "u": 1, "v": 0, "w": []}]
+    base = {"tid": 1, "events": x02.replay(calls)}
+    assert verdict("Trace_GraphRep", base) == []
+    t = copy.deepcopy(base)
+    del t["events"][1]
+    demos.append(("X02 dropped update_lc call", "Trace_GraphRep", t, {"CliffordOK", "ErrorOK", "IsGraphStateOK"}))
+    t = copy.deepcopy(base)
+    t["events"][3]["err"] = ""
+    demos.append(("X02 error of local_complementation on a non-graph state not recorded", "Trace_GraphRep", t, {"ErrorOK"}))
+
+    # --- update_hof replay (C19): a worse circuit ranked above a better one
+    class _Ctx:
+        rng = random.Random(5)
+        quick = True
+    hof = c19.hof_replay_traces(_Ctx, 0)[:1]
+    assert verdict("Trace_Evo", hof[0]) == []
+    t = copy.deepcopy(hof[0])
+    ev = next(e for e in t["events"] if len([x for x in e["after"] if x["size"]]) >= 2)
+    ev["after"][0], ev["after"][1] = ev["after"][1], ev["after"][0]
+    demos.append(("C19 hall of fame entries swapped", "Trace_Evo", t, {"HofUpdateRule", "HofSorted"}))
+
+    # --- certificate-based orbit membership (C16): a certificate that does not lead to the returned graph
+    import graphiq.utils.relabel_module as rm
+    from drivers.c09 import graph_out
+    g = nx.path_graph(7)
+    res = rm.linear_partial_orbit(g.copy())
+    certs = c16.lc_certs(g, res, 7)
+    base = {"tid": 1, "n": 7, "base": cz.graph_edges1(g), "need_orbit": False,
+            "events": [{"fn": "orbit_cert", "via": "linear_partial_orbit", "distinct": False,
+                        "out": {"err": "", "graphs": [graph_out(h, 7) for h in res]}, "certs": certs}]}
+    assert verdict("Trace_Graphs", base) == []
+    t = copy.deepcopy(base)
+    t["events"][0]["out"]["graphs"][2]["edges"] = t["events"][0]["out"]["graphs"][2]["edges"][:-1]
+    demos.append(("C16 returned graph is not what the certificate reaches", "Trace_Graphs", t, {"OrbitMember"}))
+
     bad = 0
     for name, module, t, expect in demos:
         mode = "forall" if module == "Trace_CircuitAll" else "exists"
